@@ -444,12 +444,22 @@ func (g *ArtGen) picture(where string) (string, string) {
 	var sb strings.Builder
 	sb.WriteString("<picture" + g.noise() + ">")
 	sb.WriteString(`<source srcset="` + g.ref("source", "srcset", where, ".webp", srcsetForms) + ` 1x, ` + g.ref("source", "srcset", where, ".webp", srcsetForms) + ` 2x"` + g.noise() + `>`)
+	if g.r.Chance(1, 4) {
+		// picture without <img>: the first <source> is promoted to the image
+		c1 := g.ref("source", "srcset", where, ".webp", srcsetForms)
+		id := g.lastRefID()
+		c2 := g.ref("source", "srcset", where, ".webp", srcsetForms)
+		s := "<picture" + g.noise() + `><source srcset="` + c1 + ` 1x, ` + c2 + ` 2x"` + g.noise() + `></picture>`
+		return s, id
+	}
 	src := g.ref("img", "src", where, ".png", mediaForms)
 	id := g.lastRefID()
 	sb.WriteString(`<img src="` + src + `"` + g.noise() + `>`)
 	sb.WriteString("</picture>")
 	return sb.String(), id
 }
+
+func origin(page string) string { o, _, _ := splitPage(page); return o }
 
 func (g *ArtGen) media(inText bool) {
 	var kinds []string
